@@ -552,7 +552,9 @@ def poll(ctx: Ctx, rule: str) -> None:
     decls = [n for n in ast.walk(f.node) if isinstance(n, ast.Call) and isinstance(n.func, ast.Attribute) and n.func.attr == "queue_declare"]
     ctx.floor(rule, len(decls), 3, "queue_declare calls in rabbitmq queue_declare")
 
-    def qkind(e):
+    def qkind(e, fn=None):
+        if fn is not None and isinstance(e, ast.Name) and e.id != "queue_name":
+            e = C.inline_locals(fn, e)
         if isinstance(e, ast.Name) and e.id == "queue_name":
             return "main"
         if isinstance(e, ast.JoinedStr):
@@ -571,13 +573,13 @@ def poll(ctx: Ctx, rule: str) -> None:
 
     seen = {}
     for d in decls:
-        k = qkind(C.arg(d, 0, "queue"))
+        k = qkind(C.arg(d, 0, "queue"), f)
         args = C.kw(d, "arguments")
         dlx = None
         if isinstance(args, ast.Dict):
             for kk, vv in zip(args.keys, args.values):
                 if isinstance(kk, ast.Constant) and kk.value == "x-dead-letter-routing-key":
-                    dlx = qkind(vv)
+                    dlx = qkind(vv, f)
         seen[k] = dlx
     ctx.check(seen.get("delayed") == "main", rule, f, "rabbitmq: delayed queue dead-letters into the main queue", "expired delay -> main queue",
               f"rabbitmq delayed queue dead-letters to {seen.get('delayed')!r} instead of the main queue: delayed messages never become deliverable",
@@ -600,6 +602,14 @@ def poll(ctx: Ctx, rule: str) -> None:
 
     for (dl_, dd_), w in {(False, False): "main", (True, False): "delayed", (False, True): "dead"}.items():
         r = flow.reach_under(g, qenv(dl_, dd_), flow.NORMAL_KINDS)
-        got = sorted({qkind(n.ast.value) for n in g.nodes if n.kind == "return" and n.id in r})
+        vals = []
+        for n in g.nodes:
+            if n.kind == "return" and n.id in r:
+                v = n.ast.value
+                if isinstance(v, ast.Name) and v.id != "queue_name" and len(C.local_defs(q, v.id)) > 1:
+                    vals += [s_.meta.get("value") for s_ in g.nodes if s_.kind == "store" and s_.target == v.id and s_.id in r]
+                else:
+                    vals.append(v)
+        got = sorted({qkind(v, q) for v in vals})
         ctx.check(got == [w], rule, q, f"rabbitmq qnc(delayed={dl_}, dead={dd_})", f"-> {w} queue name as declared",
                   f"rabbitmq qnc(delayed={dl_}, dead={dd_}) yields {got}, which is not the declared {w} queue name", instance=f"rabbitmq qnc[{dl_},{dd_}]")
